@@ -382,19 +382,49 @@ def rule_dim(ctx):
     if n_inst < 6:
         ctx.floor_errors.append(f"rule=C15.DIM: {n_inst} arithmetic sites (floor 6)")
     ap = ms["append"]
-    acc = [n for n in walk_no_nested(ap) if isinstance(n, ast.AugAssign) and src(n.target) == "self._sum" and isinstance(n.op, ast.Add)]
-    ok = len(acc) == 1 and src(acc[0].value) == f"len({ap.args.args[1].arg})" and not [1 for t, pol in all_guards(p, acc[0], ap) if "_limit" not in src(t)]
+    data_p = ap.args.args[1].arg
+
+    def terms(e, sign=1):
+        """signed terms of a sum: a + b - c -> [(+,a), (+,b), (-,c)] (source text of each term, names expanded beforehand)"""
+        if isinstance(e, ast.BinOp) and isinstance(e.op, (ast.Add, ast.Sub)):
+            return terms(e.left, sign) + terms(e.right, sign if isinstance(e.op, ast.Add) else -sign)
+        if isinstance(e, ast.UnaryOp) and isinstance(e.op, ast.USub):
+            return terms(e.operand, -sign)
+        return [(sign, src(e), e)]
+
+    def sum_updates(fn):
+        """every store to self._sum as (node, delta terms): `s += v`, `s -= v`, `s = s + v`; delta None if the old value is not kept"""
+        out = []
+        for n in walk_no_nested(fn):
+            if isinstance(n, ast.AugAssign) and src(n.target) == "self._sum" and isinstance(n.op, (ast.Add, ast.Sub)):
+                out.append((n, terms(deep_expand(p, n.value, fn, stop=("self._sum",)), 1 if isinstance(n.op, ast.Add) else -1)))
+            elif isinstance(n, ast.AugAssign) and src(n.target) == "self._sum":
+                out.append((n, None))
+            elif isinstance(n, ast.Assign) and any(src(t) == "self._sum" for t in n.targets):
+                ts = terms(deep_expand(p, n.value, fn, stop=("self._sum",)))
+                keep = [t for t in ts if t[0] == 1 and t[1] == "self._sum"]
+                out.append((n, [t for t in ts if t not in keep[:1]] if len(keep) == 1 else None))
+        return out
+    ups = sum_updates(ap)
+    acc = [(n, d) for n, d in ups if d is not None and [(sg, tx) for sg, tx, _ in d] == [(1, f"len({data_p})")]]
+    ok = len(acc) == 1 and not [1 for t, pol in all_guards(p, acc[0][0], ap) if "_limit" not in src(t)]
     ctx.ob("C15.DIM", ap, "the sum accumulates len(data) once per append, on every limited path", ok, "Throttle.append does not add len(data) exactly once", construct="Throttle.append:accumulate")
-    resets = [n for n in walk_no_nested(ap) if (isinstance(n, ast.AugAssign) and src(n.target) == "self._sum" and isinstance(n.op, ast.Sub)) or
-              (isinstance(n, ast.Assign) and src(n.targets[0]) == "self._sum")]
-    ok = len(resets) == 1 and isinstance(resets[0], ast.AugAssign) and not any(isinstance(c, ast.Call) and isinstance(c.func, ast.Name) and c.func.id in ("max", "min", "abs") for c in ast.walk(resets[0].value))
+    resets = [(n, d) for n, d in ups if (n, d) not in acc]
+    ok = len(resets) == 1 and resets[0][1] is not None and len(resets[0][1]) == 1 and resets[0][1][0][0] == -1
     if ok:
-        v = deep_expand(p, resets[0].value, ap)
+        v = resets[0][1][0][2]
         cur_fn[0] = ap
-        inner = v.args[0] if isinstance(v, ast.Call) and isinstance(v.func, ast.Name) and v.func.id == "round" else v
-        ok = isinstance(inner, ast.BinOp) and isinstance(inner.op, ast.Mult) and {src(inner.left), src(inner.right)} == {"(start - self._start)", "self._limit"} or \
-            (isinstance(inner, ast.BinOp) and isinstance(inner.op, ast.Mult) and {dim(inner.left), dim(inner.right)} == {"time", "rate"})
-    ctx.ob("C15.DIM", resets[0] if resets else ap, "the reset folds (elapsed * limit) out of the sum and keeps the (possibly negative) credit", ok,
+        ok = not any(isinstance(c, ast.Call) and isinstance(c.func, ast.Name) and c.func.id in ("max", "min", "abs") for c in ast.walk(v))
+        inner = v.args[0] if isinstance(v, ast.Call) and isinstance(v.func, ast.Name) and v.func.id == "round" and len(v.args) == 1 else v
+        ok = ok and isinstance(inner, ast.BinOp) and isinstance(inner.op, ast.Mult) and {dim(inner.left), dim(inner.right)} == {"time", "rate"}
+        if ok:
+            el = inner.left if dim(inner.left) == "time" else inner.right
+            ok = sorted((sg, tx) for sg, tx, _ in terms(el)) == [(-1, "self._start"), (1, ap.args.args[-1].arg)]
+    # the whole new value must not be clamped either (self._sum = max(0, ...))
+    for n, d in ups:
+        if d is None:
+            ok = False
+    ctx.ob("C15.DIM", resets[0][0] if resets else ap, "the reset folds (elapsed * limit) out of the sum and keeps the (possibly negative) credit", ok,
            "the reset branch does not subtract elapsed*limit from the sum unclamped: clamping at zero throws away credit earned while idle, so throttling adds delay the bound does not require",
            construct="Throttle.append:reset")
     rs = [n for n in walk_no_nested(ap) if isinstance(n, ast.Assign) and src(n.targets[0]) == "self._start"]
@@ -404,19 +434,12 @@ def rule_dim(ctx):
     sl = [c_ for c_ in walk_no_nested(tw) if isinstance(c_, ast.Call) and dotted(c_.func) == "asyncio.sleep"]
     ok = len(sl) == 1 and len(sl[0].args) == 1
     if ok:
-        a = expand(p, sl[0].args[0], tw)
+        a = deep_expand(p, sl[0].args[0], tw)
         ok = isinstance(a, ast.Call) and isinstance(a.func, ast.Name) and a.func.id == "max" and len(a.args) == 2
         if ok:
             zero = [x for x in a.args if isinstance(x, ast.Constant) and x.value == 0]
             diff = [x for x in a.args if not (isinstance(x, ast.Constant) and x.value == 0)]
-            ok = len(zero) == 1 and len(diff) == 1
-            if ok:
-                d = expand(p, diff[0], tw)
-                ok = isinstance(d, ast.BinOp) and isinstance(d.op, ast.Sub)
-                if ok:
-                    end, now = expand(p, d.left, tw), expand(p, d.right, tw)
-                    ok = isinstance(now, ast.Call) and (dotted(now.func) or "") == "_now" and isinstance(end, ast.BinOp) and isinstance(end.op, ast.Add) \
-                        and {src(end.left), src(end.right)} == {"self._start", "self._sum / self._limit"}
+            ok = len(zero) == 1 and len(diff) == 1 and sorted((sg, tx) for sg, tx, _ in terms(diff[0])) == [(-1, "_now()"), (1, "self._start"), (1, "self._sum / self._limit")]
     ctx.ob("C15.DIM", tw, "Throttle.wait sleeps max(0, (start + sum / limit) - now)", ok,
            f"Throttle.wait sleeps `{src(sl[0].args[0]) if sl and sl[0].args else None}`, not max(0, start + sum/limit - now)", construct="Throttle.wait:sleep")
     st = [f for f in p.cls("Throttle").body if isinstance(f, FuncT) and f.name == "limit" and any(last_attr(d) == "setter" for d in f.decorator_list)]
